@@ -267,6 +267,8 @@ def checkpoint_nofire(I):
             break
     st.now = n2
     I.record_write(("clock",))
+    for h in getattr(I, "checkpoint_hooks", []):
+        h(I)
 
 
 def checkpoint_mustfire(I):
@@ -303,6 +305,8 @@ def checkpoint_mustfire(I):
             I.assume(n2 <= d)
         st.now = n2
     I.record_write(("clock",))
+    for h in getattr(I, "checkpoint_hooks", []):
+        h(I)
     sc["cancelled"] = True
     raise_cancelled(I)
 
@@ -437,21 +441,27 @@ HEX = "0123456789abcdef"
 
 def x_uuid4(I, args, kwargs, node):
     """uuid.uuid4(): an object whose str() is a canonical 8-4-4-4-12 lower-case hex string.  Freshness
-    (differs from every uuid seen before) is an assumption recorded by the caller's contract."""
-    chars = []
-    codes = []
-    for k in range(36):
-        if k in (8, 13, 18, 23):
-            chars.append("-")
-        else:
-            c = I.fresh_int("ux")
-            I.assume(z3.Or(z3.And(c >= 48, c <= 57), z3.And(c >= 97, c <= 102)))
-            chars.append(c)
-            codes.append(c)
+    (differs from every uuid seen before) is an assumption recorded by the caller's contract.
+    ctx.uuid_chars = True keeps the 36 characters individually (needed to reason about replace('-', ''));
+    otherwise the text is an opaque string of length 36 (much cheaper for the string solver)."""
     if not hasattr(I, "uuids"):
         I.uuids = []
-    I.uuids.append(chars)
-    return new_env_object(I, UUID_ENV, text=V.VStr(P.from_chars(chars)))
+    if getattr(I.ctx, "uuid_chars", False):
+        chars = []
+        for k in range(36):
+            if k in (8, 13, 18, 23):
+                chars.append("-")
+            else:
+                c = I.fresh_int("ux")
+                I.assume(z3.Or(z3.And(c >= 48, c <= 57), z3.And(c >= 97, c <= 102)))
+                chars.append(c)
+        I.uuids.append(chars)
+        text = P.from_chars(chars)
+    else:
+        text = I.fresh("uuid", z3.StringSort())
+        I.assume(z3.Length(text) == 36)
+        I.uuids.append(text)
+    return new_env_object(I, UUID_ENV, text=V.VStr(text))
 
 
 def to_str_hook_uuid(I, v):
